@@ -275,7 +275,12 @@ def floor_shape(chk, fi):
         ("binop", "*", ("binop", "//", n, base), base),
         ("binop", "*", base, ("binop", "//", n, base)),
         ("binop", "-", n, ("binop", "%", n, base)),
+        ("binop", "*", ("sub", ("call", ("glob", "ext:builtins.divmod"), (n, base), ()), ("const", 0)), base),
+        ("binop", "*", base, ("sub", ("call", ("glob", "ext:builtins.divmod"), (n, base), ()), ("const", 0))),
+        ("binop", "*", ("proj", ("call", ("glob", "ext:builtins.divmod"), (n, base), ()), 0), base),
+        ("binop", "*", base, ("proj", ("call", ("glob", "ext:builtins.divmod"), (n, base), ()), 0)),
     ]
+    t = strip_sites(t)
     if t in good:
         chk.ok(rule, fi.qual, "floor to a multiple of the base: %s" % show(t), node=fi.node)
     else:
